@@ -443,8 +443,8 @@ func c28PLogRecord(extra ...[]byte) []byte {
 // c28PRequest wraps one span / log record (raw bytes) into a whole export request.
 func c28PRequest(fam string, item []byte) []byte {
 	res := c28PBytes(1, c28PBytes(1, c28PKeyValue("service.name", c28PAnyString("c28svc")))) // resource{attributes}
-	scope := c28PBytes(2, item)                                                           // scope_spans{spans} / scope_logs{log_records}
-	return c28PBytes(1, c28PCat(res, c28PBytes(2, scope)))                                  // resource_spans / resource_logs
+	scope := c28PBytes(2, item)                                                              // scope_spans{spans} / scope_logs{log_records}
+	return c28PBytes(1, c28PCat(res, c28PBytes(2, scope)))                                   // resource_spans / resource_logs
 }
 
 // attribute field number of the item (span: 9, log record: 6)
